@@ -443,4 +443,130 @@ theorem C12_chars_missing_value_then_dup_itemname (o : Opts) (cs : List Chunk) (
   rw [hp, denote_plain, ← pruneC_packed bc [] _ hpk]
   simp [denoteItems_append, denoteItems]
 
+/-! ### non-vacuity: the hypotheses are satisfiable (a defect in a frame, two defects in a block, a defect two frames deep) -/
+
+namespace C12Frames
+/-- `data_a ⏎ _p 1 ⏎ save_f ⏎ _x ⏎ _y 'v w' ⏎ save_ ⏎` — `_x` has no value, inside the save frame -/
+def exCs : List Chunk :=
+  [.tk (.data (a!"a")), .ws [.eol], .tk (.name (a!"_p")), .ws [.blank 32], .tk (.val .bare (a!"1")), .ws [.eol],
+   .tk (.save (a!"f")), .ws [.eol], .tk (.name (a!"_x")), .ws [.eol],
+   .tk (.name (a!"_y")), .ws [.blank 32], .tk (.val .squote (a!"v w")), .ws [.eol], .tk .saveEnd, .ws [.eol]]
+
+theorem exOk : okC .cif2 .end_ [] exCs := by
+  simp only [exCs, okC, List.nil_append]
+  repeat' apply And.intro
+  all_goals first | decide | (intro h; cases h) | exact Or.inl rfl | (right; intro b rest h; cases h) | exact List.all_eq_true.mp (by decide)
+
+theorem exHost : SegHost C12.opts2 exCs [] [] (a!"a")
+    (frameToks [.plain (.item (a!"_p") (.str (a!"1") .bare))] [] (a!"f")
+      (itemsToks [] ++ ((.name, a!"_x") :: itemsToks [.item (a!"_y") (.str (a!"v w") .squote)]))) where
+  store := rfl
+  utf := rfl
+  ok := exOk
+  fit := by decide
+  first := ⟨100, _, rfl, by decide, by decide⟩
+  mfd := by decide
+  wfPreB := rfl
+  wfBc := by decide
+  fresh := by intro b hb; cases hb
+  wfPostB := rfl
+  hToks := by decide
+
+/-- non-vacuity of `C12_chars_missing_value_in_frame`: the report is 5 tokens into the text (behind `_x`, `_y` pending) -/
+theorem C12_chars_missing_value_in_frame_instance :
+    Reports C12.opts2 exCs [(CIF_MISSING_VALUE, 5)]
+      (denote .cif2 id [{ code := a!"a", body := [.plain (.item (a!"_p") (.str (a!"1") .bare)),
+        .frame (a!"f") [.plain (.item (a!"_x") .unk), .plain (.item (a!"_y") (.str (a!"v w") .squote))]] }]) :=
+  C12_chars_missing_value_in_frame C12.opts2 exCs [] [] (a!"a") [.plain (.item (a!"_p") (.str (a!"1") .bare))] [] (a!"f") []
+    [.item (a!"_y") (.str (a!"v w") .squote)] (a!"_x") [a!"_x"] [a!"_p"] [a!"f"] exHost (by decide) (by decide) (by decide) (by decide)
+    (by decide) (by decide) (by decide) (by decide) (by decide) (by decide) (by decide)
+
+/-- … i.e. on line 4 (where `_x` ends) or line 5 (where `_y` ends) -/
+theorem C12_frames_instance_lines : endLine exCs 5 = 4 ∧ endLine exCs 6 = 5 := by decide
+
+/-- `data_a ⏎ _x ⏎ _y 1 ⏎ _Y 2 ⏎ _z 3 ⏎` — `_x` has no value, `_Y` repeats `_y` -/
+def exCs2 : List Chunk :=
+  [.tk (.data (a!"a")), .ws [.eol], .tk (.name (a!"_x")), .ws [.eol], .tk (.name (a!"_y")), .ws [.blank 32],
+   .tk (.val .bare (a!"1")), .ws [.eol], .tk (.name (a!"_Y")), .ws [.blank 32], .tk (.val .bare (a!"2")), .ws [.eol],
+   .tk (.name (a!"_z")), .ws [.blank 32], .tk (.val .bare (a!"3")), .ws [.eol]]
+
+theorem exOk2 : okC .cif2 .end_ [] exCs2 := by
+  simp only [exCs2, okC, List.nil_append]
+  repeat' apply And.intro
+  all_goals first | decide | (intro h; cases h) | exact Or.inl rfl | (right; intro b rest h; cases h) | exact List.all_eq_true.mp (by decide)
+
+theorem exHost2 : SegHost C12.opts2 exCs2 [] [] (a!"a")
+    ((itemsToks [] ++ ((.name, a!"_x") :: itemsToks [.item (a!"_y") (.str (a!"1") .bare)])) ++
+      (itemsToks [] ++ (((.name, a!"_Y") :: valToks (.str (a!"2") .bare)) ++ itemsToks [.item (a!"_z") (.str (a!"3") .bare)]))) where
+  store := rfl
+  utf := rfl
+  ok := exOk2
+  fit := by decide
+  first := ⟨100, _, rfl, by decide, by decide⟩
+  mfd := by decide
+  wfPreB := rfl
+  wfBc := by decide
+  fresh := by intro b hb; cases hb
+  wfPostB := rfl
+  hToks := by decide
+
+/-- non-vacuity of `C12_chars_missing_value_then_dup_itemname` (and of `C12_chars_two_defects`, `C12_two_defects`): exactly two
+    reports, CIF_MISSING_VALUE 2 tokens into the text, CIF_DUP_ITEMNAME 5 tokens into it -/
+theorem C12_chars_two_defects_instance :
+    ∃ r1 r2, parse C12.opts2 acceptAll [] (renderChunks exCs2)
+        = { rc := 0, log := [r1, r2],
+            cif := denote .cif2 id [plainBlock (a!"a") [.item (a!"_x") .unk, .item (a!"_y") (.str (a!"1") .bare),
+              .item (a!"_z") (.str (a!"3") .bare)]] }
+      ∧ r1.code = CIF_MISSING_VALUE ∧ r2.code = CIF_DUP_ITEMNAME
+      ∧ (r1.line = endLine exCs2 2 ∨ r1.line = endLine exCs2 3) ∧ (r2.line = endLine exCs2 5 ∨ r2.line = endLine exCs2 6) :=
+  C12_chars_missing_value_then_dup_itemname C12.opts2 exCs2 [] [] (a!"a") [] [.item (a!"_y") (.str (a!"1") .bare)]
+    [.item (a!"_z") (.str (a!"3") .bare)] (a!"_x") (a!"_Y") (.str (a!"2") .bare) [a!"_x"] [a!"_x", a!"_y"] exHost2
+    (by decide) (by decide) (by decide) (by decide) (by decide) (by decide) (by decide) (by decide) (by decide) (by decide)
+
+theorem C12_two_defects_instance_lines : endLine exCs2 2 = 2 ∧ endLine exCs2 3 = 3 ∧ endLine exCs2 5 = 4 ∧ endLine exCs2 6 = 4 := by
+  decide
+
+/-- frames nest: `data_a ⏎ save_f ⏎ save_g ⏎ _x ⏎ save_ ⏎ save_ ⏎` — `_x` without value two levels deep -/
+def optsN : Opts := { C12.opts2 with maxFrameDepth := -1 }
+
+def exCs3 : List Chunk :=
+  [.tk (.data (a!"a")), .ws [.eol], .tk (.save (a!"f")), .ws [.eol], .tk (.save (a!"g")), .ws [.eol], .tk (.name (a!"_x")), .ws [.eol],
+   .tk .saveEnd, .ws [.eol], .tk .saveEnd, .ws [.eol]]
+
+theorem exOk3 : okC .cif2 .end_ [] exCs3 := by
+  simp only [exCs3, okC, List.nil_append]
+  repeat' apply And.intro
+  all_goals first | decide | (intro h; cases h) | exact Or.inl rfl | (right; intro b rest h; cases h) | exact List.all_eq_true.mp (by decide)
+
+theorem exHost3 : SegHost optsN exCs3 [] [] (a!"a")
+    (frameToks [] [] (a!"f") (frameToks [] [] (a!"g") (itemsToks [] ++ ((.name, a!"_x") :: itemsToks [])))) where
+  store := rfl
+  utf := rfl
+  ok := exOk3
+  fit := by decide
+  first := ⟨100, _, rfl, by decide, by decide⟩
+  mfd := by decide
+  wfPreB := rfl
+  wfBc := by decide
+  fresh := by intro b hb; cases hb
+  wfPostB := rfl
+  hToks := by decide
+
+/-- non-vacuity of `C12_chars_in_nested_frame`: one report, CIF_MISSING_VALUE, 4 tokens into the text; the inner frame holds
+    `_x ?` -/
+theorem C12_chars_in_nested_frame_instance :
+    Reports optsN exCs3 [(CIF_MISSING_VALUE, 4)]
+      [.mk (a!"a") [.mk (a!"f") [.mk (a!"g") [] [{ category := some [], names := [a!"_x"], packets := [[.unk]] }]] []] []] := by
+  have := C12_chars_in_nested_frame (o := optsN) (cs := exCs3) [] [] [] [] (a!"f") (a!"g") exHost3 (by decide) [] [a!"f"] [] [a!"g"] []
+    (denoteItems .cif2 id ([] ++ [Item.item (a!"_x") .unk] ++ []) []) [(CIF_MISSING_VALUE, (itemsToks []).length + 1)]
+    ((itemsToks ([] : List Item)).length + 1 + (itemsToks ([] : List Item)).length) (([] : List Item).length + 1 + ([] : List Item).length)
+    (szItems [] + szItems [] + 1)
+    (by decide) (by decide) (by decide) (by decide) (by decide) (by decide) (by decide) (by decide) (by decide) (by decide)
+    (by decide) (by decide) (by decide) (by decide)
+    (fun hv => C12_seg_missing_value optsN hv false [] [] (a!"_x") [] [a!"_x"] [] [] rfl (nil_seen optsN) (by decide) (by decide) rfl
+      (by decide))
+  exact this
+
+end C12Frames
+
 end CifModel.Props
